@@ -18,7 +18,9 @@ PStr(cs) == IF cs = <<>> THEN "" ELSE cs[1] \o PStr(Tail(cs))
 PS == PRng(PChars("!\"#%&'()*,-./:;?@[\\]_{}$+<=>^`|~"))
 Digit == PRng(PChars("0123456789"))
 Letter == PRng(PChars("abcdefghijklmnopqrstuvwxyzABCDEFGHIJKLMNOPQRSTUVWXYZ")) \cup {"词", "项", "名", "甲", "乙", "é", "Ω"}
-AtomChar == Letter \cup Digit \cup {"_", "-"}          \* LETTER | NUMBER | "_" | "-"
+\* Unicode NUMBER (Nd, Nl, No) beyond the ASCII digits, for the characters of the working alphabet
+OtherNumber == {"²", "２", "٣", "½", "①", "Ⅷ"}
+AtomChar == Letter \cup Digit \cup OtherNumber \cup {"_", "-"}          \* LETTER | NUMBER | "_" | "-"
 WhiteSpace == {" ", "\t", "\n", "\r"}
 
 At(e, j) == IF j < Len(e) THEN e[j + 1] ELSE "<eof>"
